@@ -543,6 +543,11 @@ def replay(ctx, path):
         n1, mism1, orc1 = probe_thread_new(ctx, exe, drv, [cand["argcopy"]])
         corr = [("qthread_thread_new differs from the model: %s" % json.dumps(c), c) for (_, c) in mism1]
         return verdict(ctx, "C04", [], corr, orc1)
+    if isinstance(cand, dict) and cand.get("harness") == "c04_progress":      # extension M: scenarios of _c04_progress
+        import sys
+        from . import _c04_progress
+        corr, orc = _c04_progress.replay(ctx, sys.modules[__name__], cand)
+        return verdict(ctx, "C04", [], corr, orc)
     if not isinstance(cand, dict) or "script" not in cand:
         return run(ctx)
     exe, drv, _ = prepare(ctx)
